@@ -502,6 +502,26 @@ pub fn gen(g: &mut Gen) {
         let base = docgen::render_binary(&mut g.rng, &docgen::BinCfg::default(), &doc);
         if base.len() <= 160 { for k in 0..base.len() { g.emit(format!("x-bin {}", hex(&base[..k]))); } }
     }
+    // 2c. documents of the FULL text syntax (mixed containers with container elements, parameter blocks, headers as
+    //     first fields, arrays that turn mixed: the text-tape slice's generator) and mutations of them; plus shapes the
+    //     parser must REFUSE because later stages assume they never reach them (a parameter block opening a container
+    //     inside a mixed parent)
+    let refused: [&[u8]; 6] = [
+        b"a = { b=c 10 { [[x] y ] k = v } }", b"a={ 1 2 k=v { [[p] q=r ] } }", b"a={ b=c d { [[x] { y=z } ] } e }",
+        b"a={ 1 k=v [[p] q ] }", b"a={ b=c 10 [[x] y ] }", b"x={ { [[p] q ] } 1 k=v { [[p] q ] r=s } }",
+    ];
+    for sm in refused.iter() { g.emit(format!("x-text {}", hex(sm))); }
+    let n = g.budget(400, 8000);
+    for _ in 0..n {
+        let base = super::c01::gen_full_doc(&mut g.rng);
+        if base.len() > 400 { continue; }
+        g.emit(format!("x-text {}", hex(&base)));
+        for _ in 0..3 { let d = docgen::mutate(&mut g.rng, &base, docgen::TEXT_ALPHABET); g.emit(format!("x-text {}", hex(&d))); }
+        // splice two documents: the tail of one inside a container of the other
+        let other = super::c01::gen_full_doc(&mut g.rng);
+        if !base.is_empty() && other.len() < 400 { let k = g.rng.below(base.len()); let mut v = base[..k].to_vec(); v.extend_from_slice(&other); v.extend_from_slice(&base[k..]); g.emit(format!("x-text {}", hex(&v))); }
+    }
+    g.count("full-syntax-mutated");
     g.count("every-prefix");
     // 3. random strings
     let n = g.budget(1500, 30000);
